@@ -44,3 +44,64 @@ Theorem C04_bad_protocol :
     run (decode_loop (S f) cfg insn st) (x80 :: v :: rest) = (Ok (Err EBadVersion, st), rest).
 Proof. exact loop_bad_proto. Qed.
 Print Assumptions C04_bad_protocol.
+
+(* ---- facts regenerated from the og-rek source on every run (tools/genfacts: Gen/Consts.v, Gen/Sites.v) -- *)
+From Coq Require Import String Bool Lia ZifyN ZifyNat.
+From OgRek Require Consts Sites.
+
+(* The model's dispatch table is the source's: a byte is dispatched by the model (opcode_of_N) to
+   the opcode named n exactly when the source declares the constant n with that byte value and the
+   switch in Decoder.Decode has a case for n.  All 256 bytes, by computation. *)
+Definition op_go_name (op : opcode) : string :=
+  match op with
+  | OMark => "opMark" | OStop => "opStop" | OPop => "opPop" | OPopMark => "opPopMark" | ODup => "opDup"
+  | OFloat => "opFloat" | OInt => "opInt" | OBinint => "opBinint" | OBinint1 => "opBinint1" | OLong => "opLong"
+  | OBinint2 => "opBinint2" | ONone => "opNone" | OPersid => "opPersid" | OBinpersid => "opBinpersid"
+  | OReduce => "opReduce" | OString => "opString" | OBinstring => "opBinstring" | OShortBinstring => "opShortBinstring"
+  | OUnicode => "opUnicode" | OBinunicode => "opBinunicode" | OAppend => "opAppend" | OBuild => "opBuild"
+  | OGlobal => "opGlobal" | ODict => "opDict" | OEmptyDict => "opEmptyDict" | OAppends => "opAppends" | OGet => "opGet"
+  | OBinget => "opBinget" | OInst => "opInst" | OLong1 => "opLong1" | ONewfalse => "opNewfalse" | ONewtrue => "opNewtrue"
+  | OLongBinget => "opLongBinget" | OList => "opList" | OEmptyList => "opEmptyList" | OObj => "opObj" | OPut => "opPut"
+  | OBinput => "opBinput" | OLongBinput => "opLongBinput" | OSetitem => "opSetitem" | OTuple => "opTuple"
+  | OTuple1 => "opTuple1" | OTuple2 => "opTuple2" | OTuple3 => "opTuple3" | OEmptyTuple => "opEmptyTuple"
+  | OSetitems => "opSetitems" | OBinfloat => "opBinfloat" | OBinbytes => "opBinbytes" | OShortBinbytes => "opShortBinbytes"
+  | OFrame => "opFrame" | OShortBinunicode => "opShortBinUnicode" | OStackGlobal => "opStackGlobal"
+  | OMemoize => "opMemoize" | OBytearray8 => "opBytearray8" | ONextBuffer => "opNextBuffer"
+  | OReadonlyBuffer => "opReadOnlyBuffer" | OProto => "opProto"
+  end%string.
+
+Definition source_dispatches (b : N) : option string :=
+  match filter (fun nb => (snd nb =? b) && existsb (String.eqb (fst nb)) Sites.dispatch) Consts.op_consts with
+  | [(n, _)] => Some n
+  | _ => None
+  end.
+
+Definition dispatch_agrees (b : N) : bool :=
+  match opcode_of_N b, source_dispatches b with
+  | Some op, Some n => String.eqb (op_go_name op) n
+  | None, None => true
+  | _, _ => false
+  end.
+
+Theorem C04_dispatch_table_is_the_sources :
+  forall b, b < 256 -> dispatch_agrees b = true.
+Proof.
+  assert (H : forallb dispatch_agrees (map N.of_nat (seq 0 256)) = true) by (vm_compute; reflexivity).
+  intros b Hb. rewrite forallb_forall in H. apply H. apply in_map_iff. exists (N.to_nat b).
+  split; [apply Nnat.N2Nat.id|]. apply in_seq. lia.
+Qed.
+Print Assumptions C04_dispatch_table_is_the_sources.
+
+(* Memory: no allocation in the library is sized by a number read from the input.  Every
+   make(T, n) / Buffer.Grow(n) in the source has a size that is a constant, the length of something
+   that already exists, a single byte (<= 255), or a variable capped by a constant in the same
+   function (`if x > CONST { x = CONST }`: the 64 KiB preallocation cap of BINSTRING / BINBYTES /
+   BYTEARRAY8).  Payloads are then read with io.CopyN into a growing buffer, i.e. memory follows
+   the bytes actually delivered.  (A statement about the source's allocation sites, regenerated
+   on every run; the run-time half is the allocation envelope measured on the implementation.) *)
+Definition site_ok (a : Sites.asite) : bool :=
+  existsb (String.eqb (Sites.a_class a)) ["const"; "lenof"; "bytesized"; "capped"]%string.
+
+Theorem C04_no_allocation_sized_by_input : forallb site_ok Sites.alloc_sites = true.
+Proof. vm_compute. reflexivity. Qed.
+Print Assumptions C04_no_allocation_sized_by_input.
